@@ -2,6 +2,7 @@
 import XV.Driver.Util
 import XV.Spec.Magic
 import XV.Spec.OpTables
+import XV.Driver.LinesOps
 namespace XV.Driver
 open XV XV.Model
 
@@ -28,6 +29,8 @@ def dispatch (op : String) (args : List String) : String :=
   | "c09.failures", [] => showFailures Spec.OpTables.allFailures
   | "c09.tables", [] => " ".intercalate (Gen.allTables.map fun t =>
       s!"{t.name}:{t.version.1}.{t.version.2}:{if (Spec.OpTables.refFor t).isSome then "ref" else if (Spec.OpTables.snapFor t).isSome then "snap" else "none"}")
-  | _, _ => "(err bad-op)"
+  | _, _ => match linesDispatch op args with
+    | some r => r
+    | none => "(err bad-op)"
 
 end XV.Driver
